@@ -397,6 +397,8 @@ def prop_C01(run):
     # R4: out-of-range arguments are rejected (tables of C04) and never bound unchecked
     rules_rng.range_tables(run)
     rules_rng.constrained_value_tested(run)
+    import rules_idx as _ri
+    _ri.lookahead_skips_comments(run)           # where an operand ends: comments and strings skipped, otherwise character by character
     rules_mpt.exact_unit_division(run)
     reach = reach_roots(run)
     rules_err.err5(run, reach)
